@@ -231,7 +231,11 @@ class DocGen:
         if r < 0.6:
             out = [p + rnd.choice(['ITEMS', 'BLOCKLIST']) + self.attrs()]
             if rnd.random() < 0.5:
-                out.append(p + '  ' + self.text())
+                if self.footnotes and rnd.random() < 0.35:
+                    self.fn += 1
+                    out += [p + '  ' + self.text() + '{{FOOTNOTE %d}}' % self.fn, p + '  FOOTNOTE %d' % self.fn, p + '    ' + self.words()]
+                else:
+                    out.append(p + '  ' + self.text())
             for i in range(rnd.randint(1, 3)):
                 out.append(p + '  ' + 'ITEM ' + rnd.choice(['(%s)' % chr(97 + i), '%d.' % i]) + (' - ' + self.text() if rnd.random() < 0.3 else ''))
                 if rnd.random() < 0.3:
@@ -239,7 +243,11 @@ class DocGen:
                 for _ in range(rnd.randint(1, 2)):
                     out += self.block(ind + 2, depth + 1)
             if rnd.random() < 0.4:
-                out.append(p + '  ' + self.text())
+                if self.footnotes and rnd.random() < 0.35:
+                    self.fn += 1
+                    out += [p + '  ' + self.text() + '{{FOOTNOTE %d}}' % self.fn, p + '  FOOTNOTE %d' % self.fn, p + '    ' + self.words()]
+                else:
+                    out.append(p + '  ' + self.text())
             return out
         if r < 0.7:
             out = [p + 'BULLETS' + self.attrs()]
